@@ -4,6 +4,7 @@ import (
 	"fmt"
 	"go/token"
 	"go/types"
+	"unicode/utf8"
 )
 
 // symstr is a string with concrete length whose bytes are uint8 constants or symv terms.
@@ -102,4 +103,44 @@ func strLess(a, b []value) *Term {
 		t = tOr(tCmp("<", x, y), tAnd(tCmp("=", x, y), t))
 	}
 	return t
+}
+
+// symstrIter ranges over a string with symbolic bytes. A symbolic byte must be ASCII on the
+// path (decided); concrete multi-byte sequences are decoded natively.
+type symstrIter struct {
+	s symstr
+	i int
+}
+
+func (it *symstrIter) next() tuple {
+	if it.i >= len(it.s) {
+		return tuple{false, nil, nil}
+	}
+	i := it.i
+	switch b := it.s[i].(type) {
+	case symv:
+		if !decide(tCmp("<", b.t, tInt(0x80))) {
+			panic(unsupported("range over a string with a symbolic non-ASCII byte"))
+		}
+		it.i++
+		return tuple{true, i, symv{types.Int32, b.t}}
+	case byte:
+		if b < 0x80 {
+			it.i++
+			return tuple{true, i, rune(b)}
+		}
+		// concrete lead byte: gather the concrete continuation bytes
+		var buf []byte
+		for j := i; j < len(it.s) && j < i+4; j++ {
+			c, ok := it.s[j].(byte)
+			if !ok {
+				break
+			}
+			buf = append(buf, c)
+		}
+		r, n := utf8.DecodeRune(buf)
+		it.i += n
+		return tuple{true, i, r}
+	}
+	panic(unsupported("range over symstr: unexpected element"))
 }
